@@ -32,6 +32,28 @@ pub fn digest<T: Debug>(x: &T) -> u64 {
     hash_str(&dump(x))
 }
 
+/// Numeric (not bitwise) view of a dump: negative zero is printed as zero. Used where a property
+/// only promises numerically equal results (C10).
+pub fn normalize_neg_zero(d: &str) -> String {
+    let b = d.as_bytes();
+    let mut out = String::with_capacity(d.len());
+    let mut i = 0;
+    while i < b.len() {
+        if b[i] == b'-' && d[i..].starts_with("-0.0") {
+            let next = b.get(i + 4).copied();
+            let prev_ok = i == 0 || !(b[i - 1].is_ascii_digit() || b[i - 1] == b'e' || b[i - 1] == b'E');
+            if prev_ok && !matches!(next, Some(b'0'..=b'9' | b'e' | b'E')) {
+                out.push_str("0.0");
+                i += 4;
+                continue;
+            }
+        }
+        out.push(b[i] as char);
+        i += 1;
+    }
+    out
+}
+
 pub fn decode(text: &str) -> Option<Beatmap> {
     Beatmap::from_bytes(text.as_bytes()).ok()
 }
